@@ -7,7 +7,7 @@ C40 line-protocol driver.
       one real `pipe(...)` goroutine body over scripted streams. reads = `/`-separated `<hex>.<err>`,
       writes = `/`-separated `<n>.<err>`; err ∈ n | eof | short | invalid | e<k>; `-` = empty script.
       closes: W = the stream written to, R = the stream read from (sorted: the order is not part of the property).
-  pipe2 <A.reads> <A.writes> <B.reads> <B.writes> => AB=<calls>;BA=<calls>;errs=<sorted,…>;cA=<n>;cB=<n>;chan=closed|open
+  pipe2 <A.reads> <A.writes> <B.reads> <B.writes> => AB=<calls>;BA=<calls>;errs=<sorted,…>;cA=<n>;cB=<n>;chan=closed|open;cap=<cap of the channel>
       real `Pipe(A, B)` over two scripted streams.
   live <who closes> <hexA> <hexB> <tail hex> => AB=<hex>;BA=<hex>;tail=<hex>;end=<eof|closed|…>;cX=<n>;cY=<n>;nerr=<k>;chan=closed|open
       real `Pipe` over two bufconn pairs with real client goroutines (spec only).
@@ -98,9 +98,11 @@ def step (_ : Unit) (toks : List String) (rhs : String) : Unit × Verdict :=
       let ba := copy br aw
       let errs := sortStrs (([ab.err, ba.err].filter (· ≠ none)).map errStr)
       let es := if errs.isEmpty then "-" else ",".intercalate errs
-      let model := s!"AB={callsStr ab.calls};BA={callsStr ba.calls};errs={es};cA=2;cB=2;chan=closed"
+      let model := s!"AB={callsStr ab.calls};BA={callsStr ba.calls};errs={es};cA=2;cB=2;chan=closed;cap=2"
       if field rhs "chan" ≠ "closed" then ((), .spec "Pipe must report completion by closing the channel")
       else if field rhs "cA" ≠ "2" ∨ field rhs "cB" ≠ "2" then ((), .spec "both streams must be closed by both copiers")
+      else if (field rhs "cap").toNat?.getD 0 < errs.length then
+        ((), .spec "error channel smaller than the number of errors: a copier blocks forever when nobody receives")
       else if model = rhs then ((), .ok) else ((), .diff model)
     | _, _, _, _ => ((), .bad "pipe2 args")
   | ["live", _who, a, b, tail] =>
